@@ -562,10 +562,12 @@ class QuorumSensing:
             # Higher confidence = more influence
             likelihood = 0.5 + (vote.confidence * 0.4)  # 0.5-0.9
             prior_permit = self._bayesian_update(prior_permit, likelihood, vote.weight)
+            prior_block = self._bayesian_update(prior_block, 1.0 - likelihood, vote.weight)
 
         for vote in block_votes:
             likelihood = 0.5 + (vote.confidence * 0.4)
             prior_block = self._bayesian_update(prior_block, likelihood, vote.weight)
+            prior_permit = self._bayesian_update(prior_permit, 1.0 - likelihood, vote.weight)
 
         # Normalize
         total = prior_permit + prior_block
@@ -574,7 +576,7 @@ class QuorumSensing:
         else:
             posterior_permit = 0.5
 
-        reached = posterior_permit > threshold
+        reached = posterior_permit > threshold and len(permit_votes) > 0
         decision = VoteType.PERMIT if reached else VoteType.BLOCK
 
         return QuorumResult(
@@ -594,7 +596,7 @@ class QuorumSensing:
     def _bayesian_update(self, prior: float, likelihood: float, weight: float) -> float:
         """Apply Bayesian update with weighted evidence."""
         # Weighted likelihood based on agent weight
-        adjusted_likelihood = 0.5 + (likelihood - 0.5) * weight
+        adjusted_likelihood = min(1.0, max(0.0, 0.5 + (likelihood - 0.5) * weight))
 
         # Bayes' theorem: P(H|E) = P(E|H) * P(H) / P(E)
         # Simplified: just multiply prior by likelihood
